@@ -756,9 +756,12 @@ class Interp:
             raise CUnsupported("call of external function %s" % name)
         params = [c for c in f.get("inner", []) if c.get("kind") == "ParmVarDecl"]
         body = [c for c in f["inner"] if c.get("kind") == "CompoundStmt"][0]
+        frame = {}
+        if f.get("variadic") and len(args) >= len(params):
+            frame["__va_args__"] = list(args[len(params):])      # read only through va_start (an external with a contract)
+            args = args[:len(params)]
         if len(params) != len(args):
             raise CUnsupported("argument count mismatch calling %s" % name)
-        frame = {}
         for p, a in zip(params, args):
             t = self.T.parse(p["type"]["qualType"])
             r = self.alloc("%s.%s" % (name, p.get("name", "?")), self.T.sizeof(t), None, kind="param")
